@@ -536,6 +536,72 @@ def assigned_targets(st):
     return out
 
 
+_FLIP = {ast.Is: ast.IsNot, ast.IsNot: ast.Is, ast.Eq: ast.NotEq, ast.NotEq: ast.Eq, ast.In: ast.NotIn, ast.NotIn: ast.In,
+         ast.Lt: ast.GtE, ast.GtE: ast.Lt, ast.Gt: ast.LtE, ast.LtE: ast.Gt}
+
+
+def canon_facts(test, truth=True):
+    """canonical texts of what is known when `test` evaluates to `truth`: negations pushed inward (`not a is None` ->
+    `a is not None`), conjunctions split; a fact that cannot be split keeps a leading 'not '."""
+    if isinstance(test, ast.UnaryOp) and isinstance(test.op, ast.Not):
+        return canon_facts(test.operand, not truth)
+    if isinstance(test, ast.BoolOp):
+        if isinstance(test.op, ast.And) and truth or isinstance(test.op, ast.Or) and not truth:
+            out = []
+            for v in test.values:
+                out += canon_facts(v, truth)
+            return out
+    if isinstance(test, ast.Compare) and len(test.ops) == 1 and not truth and type(test.ops[0]) in _FLIP:
+        t2 = ast.Compare(left=test.left, ops=[_FLIP[type(test.ops[0])]()], comparators=test.comparators)
+        return [norm(t2)]
+    t = norm(test)
+    return [t] if truth else ["not " + t if not isinstance(test, (ast.BoolOp, ast.Compare, ast.IfExp)) else "not (%s)" % t]
+
+
+def _terminates(block, with_raise=True):
+    if not block:
+        return False
+    last = block[-1]
+    if isinstance(last, (ast.Return, ast.Continue, ast.Break)) or (with_raise and isinstance(last, ast.Raise)):
+        return True
+    if isinstance(last, ast.If):
+        return _terminates(last.body, with_raise) and _terminates(last.orelse, with_raise)
+    return False
+
+
+def guard_facts(fnode, node, with_raise=True):
+    """canonical facts that hold whenever `node` executes inside fnode: tests of enclosing ifs (with the polarity of the
+    branch) and the negated tests of earlier sibling ifs whose taken branch leaves the block (early return/continue/break and,
+    unless with_raise is False, raise - an argument check that raises does not make what follows "conditional")."""
+    par = {}
+    for n in ast.walk(fnode):
+        for ch in ast.iter_child_nodes(n):
+            par[ch] = n
+    facts = []
+    n = node
+    while n in par:
+        p = par[n]
+        if isinstance(p, ast.If):
+            if any(n is x for x in p.body):
+                facts += canon_facts(p.test, True)
+            elif any(n is x for x in p.orelse):
+                facts += canon_facts(p.test, False)
+        for fld in ("body", "orelse", "finalbody"):
+            blk = getattr(p, fld, None)
+            if isinstance(blk, list) and any(n is x for x in blk):
+                for sib in blk:
+                    if sib is n:
+                        break
+                    if isinstance(sib, ast.If):
+                        tb, te = _terminates(sib.body, with_raise), _terminates(sib.orelse, with_raise)
+                        if tb and not te:
+                            facts += canon_facts(sib.test, False)
+                        elif te and not tb:
+                            facts += canon_facts(sib.test, True)
+        n = p
+    return facts
+
+
 def sig_body(fnode_or_list):
     """statements of a function body that matter: docstrings, `pass` and bare print(...) calls are dropped
     (debug output is behaviour-preserving for every rule)"""
